@@ -178,6 +178,9 @@ m('M104-nbbits-128-fit', ['C02'], (B, "var RANGE_CHECK_NB_BITS int = 144", "var 
 m('M106-pp-cursor-rebased', ['C16'], (P, "\topenings variables.OpeningSet,\n) []gl.QuadraticExtensionVariable {\n\tglApi := gl.New(p.api)\n\tnumPartProds := p.commonData.NumPartialProducts", "\topenings variables.OpeningSet,\n\troundPartialProducts []gl.QuadraticExtensionVariable,\n) []gl.QuadraticExtensionVariable {\n\tglApi := gl.New(p.api)\n\tnumPartProds := p.commonData.NumPartialProducts"), (P, "\tproductAccs = append(productAccs, openings.PartialProducts[challengeNum*numPartProds:(challengeNum+1)*numPartProds]...)", "\tproductAccs = append(productAccs, roundPartialProducts...)"), (P, "\tfor i := uint64(0); i < p.commonData.Config.NumChallenges; i++ {\n\t\t// L_0(zeta) (Z(zeta) - 1) = 0", "\tppCursor := openings.PartialProducts\n\tfor i := uint64(0); i < p.commonData.Config.NumChallenges; i++ {\n\t\t// L_0(zeta) (Z(zeta) - 1) = 0"), (P, "\t\t\tp.checkPartialProducts(numeratorValues, denominatorValues, i, openings)...,\n\t\t)\n", "\t\t\tp.checkPartialProducts(numeratorValues, denominatorValues, i, openings, ppCursor[:p.commonData.NumPartialProducts])...,\n\t\t)\n\t\tppCursor = openings.PartialProducts[p.commonData.NumPartialProducts:]\n"))
 m('M107-pp-window-shifted', ['C16'], (P, "openings.PartialProducts[challengeNum*numPartProds:(challengeNum+1)*numPartProds]...", "openings.PartialProducts[challengeNum*numPartProds+1:(challengeNum+1)*numPartProds+1]..."))
 
+m('M108-innerproduct-empty-zero', ['C08'], (Q, "\tacc := startingAcc\n\tfor i := 0; i < len(pairs); i++ {", "\tif len(pairs) == 0 {\n\t\treturn ZeroExtension()\n\t}\n\tacc := startingAcc\n\tfor i := 0; i < len(pairs); i++ {"))
+m('M109-submul-ignores-b', ['C08'], (Q, "\tdifference := p.SubExtensionNoReduce(a, b)\n\tproduct := p.MulExtensionNoReduce(difference, c)", "\tdifference := p.SubExtensionNoReduce(a, ZeroExtension())\n\tproduct := p.MulExtensionNoReduce(difference, c)"))
+
 # ---- behaviour-preserving refactors: must stay silent on every property
 ALL = ['C01', 'C02', 'C03', 'C04', 'C05', 'C06', 'C07', 'C08', 'C09', 'C10', 'C11', 'C12', 'C13', 'C14', 'C15', 'C16', 'C17', 'C18', 'C19', 'C20']
 m('R02-inline-assertLeadingZeros', [], (F, "\tf.assertLeadingZeros(friChallenges.FriPowResponse, f.friParams.Config)\n", "\tf.gl.RangeCheckWithMaxBits(friChallenges.FriPowResponse, 64-f.friParams.Config.ProofOfWorkBits)\n"))
